@@ -43,14 +43,34 @@ for l in open('/verif/properties.jsonl'):
     avoid = ''
     if suffix:
         site = ''
+        prev_dirs = [id] + [id + x for x in 'bcdefgh' if x < suffix]
         try:
+            notes = []
+            for d in prev_dirs:
+                f = [x for x in open(f'/verif/seeded/{d}/patch.diff') if x.startswith('+++ ')][0].split('b/', 1)[1].strip()
+                hunk = ''
+                for line in open(f'/verif/seeded/{d}/patch.diff'):
+                    if line.startswith('@@') and '@@' in line[2:]:
+                        hunk = line.split('@@')[-1].strip()
+                        break
+                notes.append(f"`{f}` near `{hunk}`")
+            if len(notes) > 1:
+                avoid = "\nEarlier seeded changes for this property already exist in: " + "; ".join(notes) + ". Choose a DIFFERENT mechanism, a different function and ideally a different clause of the property statement than any of them.\n"
+                raise StopIteration
+        except StopIteration:
+            pass
+        except Exception:
+            pass
+        try:
+            if avoid:
+                raise StopIteration
             for line in open(f'/verif/seeded/{id}/patch.diff'):
                 if line.startswith('@@') and '@@' in line[2:]:
                     site = line.split('@@')[-1].strip()
                     break
             f = [x for x in open(f'/verif/seeded/{id}/patch.diff') if x.startswith('+++ ')][0].split('b/', 1)[1].strip()
             avoid = f"\nAn earlier seeded change for this property already exists in `{f}` near `{site}`; choose a DIFFERENT mechanism and a different function, ideally a different clause of the property statement.\n"
-        except Exception:
+        except (Exception, StopIteration):
             pass
     s = T.format(wt=f'/tmp/seed_{id}{suffix}', out=f'/tmp/seed_{id}{suffix}_out', id=id, title=p['title'], statement=p['statement'], quant=p['quantifier']['text'], files=', '.join(p['anchors']['files']), avoid=avoid)
     open(f'/tmp/seedprompts/{id}{suffix}.txt', 'w').write(s)
